@@ -57,6 +57,11 @@ class DType:
         self.kind = kind
         self.label = label
 
+    def pyvc_getattr(self, it, name):
+        if name == "na_object" and hasattr(self, "na_object"):
+            return self.na_object
+        raise Unsupported(f"dtype.{name}")
+
     def pyvc_compare(self, it, op, other, swapped):
         import ast
         if isinstance(other, DType) and isinstance(op, (ast.Eq, ast.NotEq)):
@@ -79,6 +84,7 @@ class NDArr:
         self.ndim = ndim
         self.base = base          # NDArr whose buffer this array is a view of
         self.off = off
+        self.fresh_cond = None
         if base is None:
             self.id = ("ndarr", next(NDArr._ids))
             ctx.store[self.id] = {"seq": seq}
@@ -135,7 +141,9 @@ class NDArr:
 
     def pyvc_subst(self, fn):
         s = self.seq
-        a = NDArr(self.ctx, fn(s), fn(self.kind) if is_z3(self.kind) else self.kind, self.owner, self.cls, ndim=self.ndim)
+        a = NDArr(self.ctx, fn(s), fn(self.kind) if is_z3(self.kind) else self.kind, self.root().owner, self.cls, ndim=self.ndim)
+        if self.root().fresh_cond is not None:
+            a.fresh_cond = fn(self.root().fresh_cond)
         return a
 
     def pyvc_merge(self, cond, other):
@@ -143,9 +151,23 @@ class NDArr:
             raise Unsupported("merge of array and non-array")
         from .loops import merge
         k = self.kind if (isinstance(self.kind, str) and self.kind == other.kind) else z3.If(cond, kind_term(self.kind), kind_term(other.kind))
-        if self.owner != other.owner or self.cls is not other.cls:
-            raise Unsupported("merge of arrays with different owner/class")
-        return NDArr(self.ctx, merge(cond, self.seq, other.seq), k, self.owner, self.cls)
+        if self.cls is not other.cls:
+            raise Unsupported("merge of arrays of different classes")
+        if self.owner == other.owner and self.fresh_cond is None and other.fresh_cond is None:
+            return NDArr(self.ctx, merge(cond, self.seq, other.seq), k, self.owner, self.cls)
+        r = NDArr(self.ctx, merge(cond, self.seq, other.seq), k, "mixed", self.cls)
+        fa, fb = self.freshness(), other.freshness()
+        fa = z3.BoolVal(fa) if isinstance(fa, bool) else fa
+        fb = z3.BoolVal(fb) if isinstance(fb, bool) else fb
+        r.fresh_cond = z3.If(cond, fa, fb)
+        return r
+
+    def freshness(self):
+        """True / False / formula: this array lives in a buffer allocated during the call"""
+        root = self.root()
+        if root.fresh_cond is not None:
+            return root.fresh_cond
+        return root.owner == "fresh"
 
     def pyvc_isinstance(self, it, t):
         name = t.name
@@ -220,17 +242,17 @@ def seq_to_arr(it, s, want=None):
         if all(is_boollike(e) for e in items) and items:
             return NDArr(it.ctx, Seq.of_list(it.ctx, [zbool(e) for e in items], BOOL), "bool")
         if not items:
-            kind = want or "float"
+            kind = "float" if want is None else want
             srt = {"int": INT, "bool": BOOL}.get(kind, V)
             return NDArr(it.ctx, Seq(0, lambda j: (z3.IntVal(0) if srt == INT else z3.BoolVal(False) if srt == BOOL else NONE), srt), kind)
         vs = [M.to_v(it, e) for e in items]
-        return NDArr(it.ctx, Seq.of_list(it.ctx, vs, V), want or it.ctx.fresh("kind", INT))
+        return NDArr(it.ctx, Seq.of_list(it.ctx, vs, V), it.ctx.fresh("kind", INT) if want is None else want)
     if s.sort == INT:
         return NDArr(it.ctx, s, "int")
     if s.sort == BOOL:
         return NDArr(it.ctx, s, "bool")
     if s.sort == V:
-        return NDArr(it.ctx, s, want or it.ctx.fresh("kind", INT))
+        return NDArr(it.ctx, s, it.ctx.fresh("kind", INT) if want is None else want)
     raise Unsupported("array from structured sequence")
 
 
@@ -675,13 +697,27 @@ def _np_sort(it, args, kwargs):
                                         patterns=[z3.MultiPattern(pm.perm(x), pm.perm(y))]))
     r = NDArr(it.ctx, out, "int")
     r.perm = pm
+    it.last_sorted_choice = out       # ghost: lets a contract name the sorted index vector
     return r
 
 
 def _np_where(it, args, kwargs):
     if len(args) == 1:
         return _np_nonzero(it, args, kwargs)
-    raise Unsupported("np.where with three arguments")
+    cond, x, y = args
+    c = as_arr(it, cond).seq
+    if c.sort != BOOL:
+        raise Unsupported("np.where on non-boolean condition")
+
+    def side(v):
+        if isinstance(v, NDArr):
+            sv = v.seq
+            return lambda j: coerce(it, sv.at(j), sv.sort, V)
+        vv = M.to_v(it, v)
+        return lambda j: vv
+    fx, fy = side(x), side(y)
+    # element-wise choice; the result is a new (object) array
+    return NDArr(it.ctx, Seq(c.len, lambda j: z3.If(c.at(j), fx(j), fy(j)), V), "object", "fresh", None)
 
 
 def _np_fromiter(it, args, kwargs):
@@ -730,7 +766,7 @@ def _np_array(it, args, kwargs):
     dtype = args[1] if len(args) > 1 else kwargs.get("dtype")
     kind = astype_kind(it, dtype) if dtype is not None else None
     if isinstance(obj, NDArr):
-        return NDArr(it.ctx, obj.seq.clone(), kind or obj.kind, "fresh", None)
+        return NDArr(it.ctx, obj.seq.clone(), obj.kind if kind is None else kind, "fresh", None)
     a = as_arr(it, obj, kind)
     if kind is not None and not same_kind(a.kind, kind):
         a = NDArr(it.ctx, a.seq, kind, "fresh", None)
